@@ -6,6 +6,10 @@ from harness import core, encgen as G
 from harness.props.c12 import C12
 
 
+class _Modified(Exception):
+    pass
+
+
 class C13(core.Check):
     pid = 'C13'
     driver = 'drv_c12'
@@ -16,11 +20,21 @@ class C13(core.Check):
             'rarely - earlier years); every stype group\'s encoder (all nine parameterised classes, every admissible NA '
             'strategy or none, post module none/ReLU/Tanh/LayerNorm, all parameters re-drawn) is run on both frames. '
             'The Lean side evaluates the per-cell specification function cell by cell (never the batched passes). '
+            'On the real encoder alone (no model involved) every group of every frame is put through the property\'s own '
+            'relations: missing cell -> all-zero vector with the post module removed; output = post module applied to that; '
+            'with a strategy: identical to encoding the frame whose missing cells were replaced by the column\'s own '
+            'statistic with the strategy switched off; one cell replaced (by another row\'s value of that column, a fresh '
+            'value or the missing marker) -> every other embedding bit-identical and a copied value embedded like its '
+            'source; rows permuted -> output permuted; every input tensor / ragged storage unchanged after every call. '
+            'All class x stype x strategy constructions are enumerated and compared with the documented table. '
             'Non-trivial = at least one group with >= 1 cell; distinct = distinct case hash.')
     partial_notes = (
         '"encoding never modifies the tensors it is given" is checked on the real objects (snapshot of every feature '
         'tensor / ragged storage before and after the call); the functional Lean model cannot express aliasing',
-        'the padding-row hypothesis table[0] = 0 of missing_is_zero_embedding is checked on every exported Embedding table',
+        'the hypotheses MissingHyp of missing_is_zero (padding row table[0] = 0 of the shared Embedding; >= 2 bucket '
+        'boundaries and one weight row per bucket; weight_list[c] has emb_dim rows) are checked on every real encoder built',
+        'the imputed values are compared with Dataset.col_stats of the same column (that col_stats are the textbook '
+        'statistics, and category index 0 the most frequent category, is C03 / C01)',
         'float32-forced parts (LinearBucketEncoder, cyclic part of TimestampEncoder) use the widened tolerance of C12',
         'earlier years than the fitted minimum make PositionalEncoding assert: outside the encoder\'s domain, the model '
         'predicts the same refusal, the case is logged (label ts-out-of-domain), not alarmed',
@@ -52,7 +66,7 @@ class C13(core.Check):
         frames = [('train', tf)]
         if 'eval_cols' in case:
             frames.append(('eval', G.eval_frame(case, ds)))
-        out, reqs = {'groups': []}, []
+        out, reqs, rel = {'groups': []}, [], {}
         rng = random.Random(case['oseed'])
         for fname, frame in frames:
             for s in G.canonical_stypes(frame):
@@ -77,10 +91,11 @@ class C13(core.Check):
                         self._viol[key] = core.Violation(f'C13/input-modified/{e["cls"]}', f'{e["cls"]} (na={e["na"]}) modified '
                                                          f'the {s} features it was given', case, 'unchanged input', 'changed')
                     elif x is not None:
-                        self._viol[key] = self.oracle_group(case, ds, frame, m, e, s, feat, names, x, rng, res['tol'])
+                        self._viol[key] = self.oracle_group(case, ds, frame, m, e, s, feat, names, x, rng, res['tol'], rel)
                     elif not (s == 'timestamp' and fname == 'eval'):
                         self._viol[key] = core.Violation(f'C13/asserts/{e["cls"]}', f'{e["cls"]} asserted on {fname} data', case)
         self._req[key] = reqs
+        out['relations'] = rel
         return out
 
     @staticmethod
@@ -91,70 +106,131 @@ class C13(core.Check):
         return ('m', core.stable_hash(torch.nan_to_num(feat.values.double(), nan=-12345.678).tolist()),
                 feat.offset.tolist(), feat.num_rows, feat.num_cols)
 
-    # ------------------------------------------------------------------ metamorphic oracle (independent of Lean)
-    def oracle_group(self, case, ds, frame, m, e, s, feat, names, x, rng, tol):
+    # ------------------------------------------------------------------ direct relations on the real encoder
+    def oracle_group(self, case, ds, frame, m, e, s, feat, names, x, rng, tol, rel):
+        """the property's own relations, run on the real encoder only (no Lean model involved); `rel` collects which
+        relations were actually exercised (-> evidence histogram)"""
         t = G.T()
-        torch, stype, Stat = t['torch'], t['stype'], t['Stat']
-        B, C = x.shape[0], x.shape[1]
+        torch = t['torch']
+        B, C, CH = x.shape[0], x.shape[1], x.shape[2]
         cls, na = e['cls'], e['na']
         tag = f'{cls}/na={na}'
+        snap0 = self.snapshot(feat)
+
+        def hit(name):
+            rel[name] = rel.get(name, 0) + 1
 
         def run(mod, f):
-            return mod(f, names).detach()
+            sn = self.snapshot(f)
+            y = mod(f, names).detach()
+            if self.snapshot(f) != sn:
+                raise _Modified()
+            return y
 
         def same(a, b, rows=None):
             ta = tol if rows is None else [tol[r] for r in rows]
             return G.close_nested(a.double().tolist(), b.double().tolist(), ta)
 
-        miss = self.missing_mask(s, feat)                      # [B][C] bools
-        # (1) no strategy: a missing cell is the all-zero vector before the post module
-        pre = copy.deepcopy(m)
-        pre.post_module = None
-        xpre = run(pre, feat)
-        if na is None:
-            for r in range(B):
-                for c in range(C):
-                    if miss[r][c] and float(xpre[r, c].abs().max()) != 0.0:
-                        return core.Violation(f'C13/missing-not-zero/{cls}', f'{tag}: missing cell ({r},{c}) of {s} is embedded '
-                                              f'as {xpre[r, c].tolist()} before the post module', case,
-                                              [0.0] * x.shape[2], xpre[r, c].tolist())
-        else:
-            # (2) with a strategy: exactly the encoding of the replacement value, which is the column's own statistic
-            imputed = self.impute(ds, frame, s, feat, names, na, miss)
-            none = copy.deepcopy(m)
-            none.na_strategy = None
-            ximp = run(none, imputed)
-            if not same(x, ximp):
-                return core.Violation(f'C13/not-imputation/{cls}/{na}', f'{tag}: encoding with the strategy differs from '
-                                      f'encoding the frame whose missing cells were replaced by the column\'s statistic',
-                                      case, ximp.tolist(), x.tolist())
-        if B == 0 or C == 0:
-            return None
-        # (3) changing one cell changes only its own embedding
-        r0, c0 = rng.randrange(B), rng.randrange(C)
-        src = rng.randrange(B)
-        pert = self.replace_cell(s, feat, r0, c0, src, rng)
-        if pert is not None:
-            try:
-                xp = run(m, pert)
-            except AssertionError:
-                xp = None
-            if xp is not None:
+        try:
+            # (0) the explicit hypotheses of the zero-embedding theorem hold for the real module
+            v = self.check_hypotheses(case, m, e)
+            if v is not None:
+                return v
+            miss = self.missing_mask(s, feat)                      # [B][C] bools
+            nmiss = sum(1 for row in miss for b in row if b)
+            # (1) the post module is applied last: output = post_module(output of the same encoder without it)
+            pre = copy.deepcopy(m)
+            pre.post_module = None
+            xpre = run(pre, feat)
+            xpost = xpre if m.post_module is None else m.post_module(xpre).detach()
+            if not torch.allclose(xpost, x, rtol=1e-12, atol=0.0, equal_nan=True):
+                return core.Violation(f'C13/post-not-last/{cls}', f'{tag}: the output is not the post module applied to the '
+                                      f'output of the same encoder with post_module=None (nan_to_num must come before the '
+                                      f'post module)', case, xpost.tolist(), x.tolist())
+            hit(f'post-last:{e["post"]["t"]}')
+            if na is None:
+                # (2) no strategy: a missing cell is the all-zero vector before the post module
+                for r in range(B):
+                    for c in range(C):
+                        if miss[r][c] and float(xpre[r, c].abs().max()) != 0.0:
+                            return core.Violation(f'C13/missing-not-zero/{cls}', f'{tag}: missing cell ({r},{c}) of {s} is '
+                                                  f'embedded as {xpre[r, c].tolist()} before the post module', case,
+                                                  [0.0] * CH, xpre[r, c].tolist())
+                if nmiss:
+                    hit(f'missing-zero:{cls}' + (f':{e["mode"]}' if 'mode' in e else ''))
+            else:
+                # (3) with a strategy: exactly the encoding of the replacement value, which is the column's own statistic
+                imputed = self.impute(ds, frame, s, feat, names, na, miss)
+                none = copy.deepcopy(m)
+                none.na_strategy = None
+                ximp = run(none, imputed)
+                if not same(x, ximp):
+                    return core.Violation(f'C13/not-imputation/{cls}/{na}', f'{tag}: encoding with the strategy differs from '
+                                          f'encoding (without strategy) the frame whose missing cells were replaced by '
+                                          f'the column\'s own statistic', case, ximp.tolist(), x.tolist())
+                if nmiss:
+                    hit(f'imputation:{cls}' + (f':{e["mode"]}' if 'mode' in e else '') + f':{na}')
+                    if C >= 2:
+                        hit('imputation:multi-column')
+            if B == 0 or C == 0:
+                return None
+            # (4) changing one cell changes only its own embedding; a copied value is embedded like its source
+            for _ in range(2):
+                r0, c0 = rng.randrange(B), rng.randrange(C)
+                src = rng.randrange(B)
+                pert, copied = self.replace_cell(s, feat, r0, c0, src, rng)
+                if pert is None:
+                    continue
+                try:
+                    xp = run(m, pert)
+                except AssertionError:
+                    continue
                 keep = torch.ones(B, C, dtype=torch.bool)
                 keep[r0, c0] = False
                 if not torch.equal(torch.nan_to_num(xp[keep]), torch.nan_to_num(x[keep])):
-                    return core.Violation(f'C13/not-local/{cls}', f'{tag}: replacing cell ({r0},{c0}) of {s} changed another '
-                                          f'cell\'s embedding', case)
-        # (4) permuting rows permutes the output
-        perm = list(range(B))
-        rng.shuffle(perm)
-        xq = run(m, feat[perm] if not isinstance(feat, torch.Tensor) else feat[torch.tensor(perm)])
-        if not same(xq, x[torch.tensor(perm)], rows=perm):
-            return core.Violation(f'C13/not-row-equivariant/{cls}', f'{tag}: encoding of permuted rows is not the permuted '
-                                  f'encoding', case)
-        # (5) the padding row hypothesis of the zero-embedding theorem
+                    bad = [(r, c) for r in range(B) for c in range(C)
+                           if keep[r, c] and not torch.equal(torch.nan_to_num(xp[r, c]), torch.nan_to_num(x[r, c]))]
+                    return core.Violation(f'C13/not-local/{cls}', f'{tag}: replacing cell ({r0},{c0}) of {s} changed the '
+                                          f'embedding of other cells {bad[:4]}', case)
+                hit('perturb:' + ('copy' if copied else 'fresh'))
+                if copied:
+                    ext = [tol[r0][c0][k] + tol[src][c0][k] for k in range(CH)]
+                    if not G.close_nested(xp[r0, c0].double().tolist(), x[src, c0].double().tolist(), ext):
+                        return core.Violation(f'C13/not-a-function-of-the-cell/{cls}', f'{tag}: cell ({r0},{c0}) of {s} was '
+                                              f'given the value of cell ({src},{c0}) but is embedded differently', case,
+                                              x[src, c0].tolist(), xp[r0, c0].tolist())
+                elif not torch.equal(torch.nan_to_num(xp[r0, c0]), torch.nan_to_num(x[r0, c0])):
+                    hit('perturb:own-embedding-changed')
+            # (5) permuting rows permutes the output
+            perm = list(range(B))
+            rng.shuffle(perm)
+            xq = run(m, feat[perm] if not isinstance(feat, torch.Tensor) else feat[torch.tensor(perm)])
+            if not same(xq, x[torch.tensor(perm)], rows=perm):
+                return core.Violation(f'C13/not-row-equivariant/{cls}', f'{tag}: encoding of permuted rows is not the permuted '
+                                      f'encoding', case, x[torch.tensor(perm)].tolist(), xq.tolist())
+            hit('row-perm' + (':nontrivial' if perm != sorted(perm) else ':identity'))
+        except _Modified:
+            return core.Violation(f'C13/input-modified/{cls}', f'{tag}: the {s} features handed to the encoder were modified by '
+                                  f'the call', case, 'unchanged input', 'changed')
+        if self.snapshot(feat) != snap0:
+            return core.Violation(f'C13/input-modified/{cls}', f'{tag}: the {s} features were modified', case)
+        return None
+
+    @staticmethod
+    def check_hypotheses(case, m, e):
+        """MissingHyp of the theorem missing_is_zero, on the real module"""
+        cls = e['cls']
         if cls == 'embedding' and float(m.emb.weight[0].abs().max()) != 0.0:
-            return core.Violation('C13/padding-row', 'Embedding padding row is not zero', case)
+            return core.Violation('C13/padding-row', 'row 0 (padding_idx) of the shared Embedding table is not zero', case)
+        if cls == 'embedding' and m.emb.padding_idx != 0:
+            return core.Violation('C13/padding-row', 'the shared Embedding has no padding_idx=0', case)
+        if cls == 'bag' and any(emb.padding_idx != 0 for emb in m.embs):
+            return core.Violation('C13/padding-idx', 'an EmbeddingBag has no padding_idx=0', case)
+        if cls == 'bucket' and (m.boundaries.shape[1] < 2 or m.weight.shape[1] != m.boundaries.shape[1] - 1):
+            return core.Violation('C13/bucket-shape', f'boundaries {list(m.boundaries.shape)} / weight '
+                                  f'{list(m.weight.shape)} do not give one weight row per bucket', case)
+        if cls == 'linemb' and [int(w.shape[0]) for w in m.weight_list] != [int(d) for d in m.emb_dim_list]:
+            return core.Violation('C13/linemb-shape', 'weight_list rows differ from emb_dim_list', case)
         return None
 
     @staticmethod
@@ -203,30 +279,44 @@ class C13(core.Check):
 
     @staticmethod
     def replace_cell(s, feat, r0, c0, src, rng):
-        """the same features with cell (r0, c0) replaced by another legal value of that column"""
+        """(the same features with cell (r0, c0) replaced by another legal value of that column, copied?) where
+        copied = the new value is exactly the value of cell (src, c0)"""
         t = G.T()
         torch = t['torch']
+        copy_it = src != r0 and rng.random() < 0.5
         if s == 'multicategorical':
             cells = G.mnt_cells(feat)
-            cells[r0][c0] = list(cells[src][c0]) if src != r0 else ([] if cells[r0][c0] else [-1])
+            cells[r0][c0] = list(cells[src][c0]) if copy_it else ([] if cells[r0][c0] else [-1])
             from torch_frame.data import MultiNestedTensor
-            return MultiNestedTensor.from_tensor_mat([[torch.tensor(c, dtype=torch.long) for c in row] for row in cells])
+            return MultiNestedTensor.from_tensor_mat(
+                [[torch.tensor(c, dtype=torch.long) for c in row] for row in cells]), copy_it
         if s == 'embedding':
             from torch_frame.data import MultiEmbeddingTensor
             vals = feat.values.clone()
             off = feat.offset.tolist()
-            vals[r0, off[c0]:off[c0 + 1]] = vals[src, off[c0]:off[c0 + 1]] * 0.5 + 1.0
-            return MultiEmbeddingTensor(feat.num_rows, feat.num_cols, vals, feat.offset)
+            if copy_it:
+                vals[r0, off[c0]:off[c0 + 1]] = vals[src, off[c0]:off[c0 + 1]]
+            else:
+                vals[r0, off[c0]:off[c0 + 1]] = torch.nan_to_num(vals[src, off[c0]:off[c0 + 1]]) * 0.5 + 1.0
+                if rng.random() < 0.2:
+                    vals[r0, off[c0] + rng.randrange(off[c0 + 1] - off[c0])] = float('nan')
+            return MultiEmbeddingTensor(feat.num_rows, feat.num_cols, vals, feat.offset), copy_it
         out = feat.clone()
-        if s == 'numerical':
-            out[r0, c0] = float('nan') if rng.random() < 0.2 else out[src, c0] * 0.5 + 0.25
+        if copy_it:
+            out[r0, c0] = feat[src, c0]
+        elif s == 'numerical':
+            out[r0, c0] = float('nan') if rng.random() < 0.25 else torch.nan_to_num(feat[src, c0], posinf=3.0, neginf=-3.0) * 0.5 + 0.25
         elif s == 'categorical':
-            out[r0, c0] = -1 if int(out[r0, c0]) >= 0 and rng.random() < 0.3 else int(out[src, c0])
-            if int(out[r0, c0]) == int(feat[r0, c0]):
-                out[r0, c0] = -1 if int(feat[r0, c0]) >= 0 else 0
+            out[r0, c0] = -1 if int(feat[r0, c0]) >= 0 else 0
         else:
-            out[r0, c0] = out[src, c0] if src != r0 else torch.full((7,), -1, dtype=out.dtype)
-        return out
+            if bool((feat[r0, c0] < 0).any()):
+                donors = [r for r in range(feat.shape[0]) if not bool((feat[r, c0] < 0).any())]
+                if not donors:
+                    return None, False
+                out[r0, c0] = feat[donors[0], c0]
+            else:
+                out[r0, c0] = torch.full((7,), -1, dtype=out.dtype)
+        return out, copy_it
 
     # ------------------------------------------------------------------ model side: the per-cell specification
     def model_requests(self, case):
@@ -282,12 +372,85 @@ class C13(core.Check):
             if g.get('raises'):
                 labs.append('ts-out-of-domain')
         for c in case['cols']:
-            if any(v is None for v in c['values']):
+            if any(v is None or (isinstance(v, list) and 'nan' in v) for v in c['values']):
                 labs.append(f"has-missing:{c['stype']}")
+            if c['stype'] == 'numerical' and any(isinstance(v, str) for v in c['values']):
+                labs.append('has-inf')
+        for name in r.get('relations', {}):
+            labs.append('rel:' + name)
         for c in case.get('eval_cols', []):
             if c['stype'] in ('categorical', 'multicategorical') and any(v and 'UNSEEN' in v for v in c['values']):
                 labs.append(f"unseen:{c['stype']}")
         return labs
+
+    # ------------------------------------------------------------------ rejected combinations (complete enumeration)
+    # what the documentation of NAStrategy / the encoders allows, written down independently of the Lean model
+    DOCUMENTED = {
+        'LinearEncoder': ('numerical', {None, 'mean', 'zeros'}),
+        'StackEncoder': ('numerical', {None, 'mean', 'zeros'}),
+        'LinearBucketEncoder': ('numerical', {None, 'mean', 'zeros'}),
+        'LinearPeriodicEncoder': ('numerical', {None, 'mean', 'zeros'}),
+        'ExcelFormerEncoder': ('numerical', {None, 'mean', 'zeros'}),
+        'EmbeddingEncoder': ('categorical', {None, 'most_frequent'}),
+        'MultiCategoricalEmbeddingEncoder': ('multicategorical', {None, 'zeros'}),
+        'TimestampEncoder': ('timestamp', {None, 'oldest_timestamp', 'newest_timestamp', 'median_timestamp'}),
+        'LinearEmbeddingEncoder': ('embedding', {None}),
+    }
+
+    def extra_checks(self, rng, tier, report):
+        """every (parameterised class, stype, strategy) triple: constructed on the real code (directly with the
+        statistics of that stype, and through StypeWiseFeatureEncoder), compared with the documented table and
+        with the model's table"""
+        from harness.tabs import encoder as tab
+        t = tab.compute()
+        cls_names, st_names, na_names = t['classNames'], t['stypeNames'], [None] + t['naNames']
+        direct, wise = set(map(tuple, t['directAccepted'])), set(map(tuple, t['wiseAccepted']))
+        n_triples = n_bad_rejected = 0
+        reqs, keys = [], []
+        for ci, cn in enumerate(cls_names):
+            if cn not in self.DOCUMENTED:
+                if cn != 'LinearModelEncoder':
+                    report['broken'].append(f'rejected-combinations: unknown encoder class {cn} in the live package')
+                continue
+            doc_st, doc_na = self.DOCUMENTED[cn]
+            if [st_names[i] for i in t['supported'][ci]] != [doc_st]:
+                report['violations'].append(core.Violation(
+                    f'C13/supported-stypes/{cn}', f'{cn}.supported_stypes is {[st_names[i] for i in t["supported"][ci]]}, '
+                    f'documented: [{doc_st}]', {'kind': 'table', 'cls': cn}, [doc_st], [st_names[i] for i in t['supported'][ci]]))
+            for si, sn in enumerate(st_names):
+                for ni, na in enumerate(na_names):
+                    n_triples += 1
+                    want = sn == doc_st and na in doc_na
+                    got_wise = (ci, si, ni) in wise
+                    got_direct = (ci, si, ni) in direct if si in t['supported'][ci] else None
+                    for how, got in (('StypeWiseFeatureEncoder', got_wise), ('direct construction', got_direct)):
+                        if got is None or got == want:
+                            continue
+                        if not want:
+                            n_bad_rejected += 1
+                        report['violations'].append(core.Violation(
+                            f'C13/combination/{cn}/{sn}/{na}',
+                            f'{cn} x stype {sn} x na_strategy {na}: {how} ' + ('accepts' if got else 'rejects') +
+                            ' it; the documentation says it must be ' + ('accepted' if want else 'rejected at construction'),
+                            {'kind': 'table', 'cls': cn, 'stype': sn, 'na': na, 'how': how},
+                            'accepted' if want else 'raises', 'accepted' if got else 'raises'))
+                    reqs.append({'cmd': 'accept', 'cls': ci, 'stype': sn, 'na': na})
+                    keys.append((cn, sn, na, want))
+        bad_model = 0
+        try:
+            reps = core.Driver(self.driver).ask(reqs)
+            for (cn, sn, na, want), rep in zip(keys, reps):
+                if bool(rep['supported'] and rep['direct']) != want or bool(rep['wise']) != want:
+                    bad_model += 1
+                    report['broken'].append(f'rejected-combinations: model table says {rep} for {cn} x {sn} x {na}, '
+                                            f'documented {"accept" if want else "reject"}')
+        except Exception as ex:      # noqa
+            report['broken'].append(f'rejected-combinations: driver unavailable ({ex})')
+        report['extra']['rejected_combinations'] = {
+            'triples': n_triples, 'exhaustive': True, 'classes': len(self.DOCUMENTED),
+            'documented_accepted': sum(len(v[1]) for v in self.DOCUMENTED.values()),
+            'code_vs_documentation_disagreements': len([v for v in report['violations'] if v.key.startswith('C13/combination')]),
+            'model_vs_documentation_disagreements': bad_model}
 
 
 CHECK = C13()
